@@ -69,9 +69,12 @@ ILL_COND_V = 0.005   # a constructed cut whose velocity the tolerances resolve w
 # Confirmed defects of the unchanged tree steered around while the switch is True (VERIF_NO_AVOID=1 disables; a case
 # carrying "force": true - the known_*.json replays - is always evaluated)
 AVOID = {
-    # fastestDeflag() evaluates findMatching at vMin + 1e-3; for alpha_n > 1/3 the exact v+ there is below the
-    # matching's own lower bracket end 1e-3, findMatching returns None (-> TypeError) or a non-solution (-> the
-    # cut is missed and vJ is returned)
+    # fastestDeflag() brackets its root search with findMatching(vMin + 1e-3).  There findMatching is unreliable:
+    # (i) the exact v+ is below findMatching's own lower bracket end vBracketLow = 1e-3 (alpha_n >~ 0.17, and
+    # generally next to vMin > 1e-3), (ii) slow walls (vw <~ 0.015): the acceptance test sum(fun^2) < 1e-6 of the
+    # inner 2x2 solve is vacuous when v^2 ~ 1e-5, a non-solution is used.  Result: a tuple of None (-> TypeError
+    # 'NoneType' - 'float') or temperatures that already exceed the range (-> ValueError -> vJ returned, cut missed).
+    # While True, cut cases whose bracket-end matching is None or not the exact one are labelled and skipped.
     "fastest_bracket_end": True,
 }
 if os.environ.get("VERIF_NO_AVOID"):
@@ -83,7 +86,8 @@ TOLERANCES = {
     "branch_margin": "K(atol + rtol vJ_ref) around the reference CJ velocity",
     "strict_inequalities": "raw numbers; on failure re-judged with dvp <= K(atol+rtol vp) + K rtol Tn/|dTn'/dvp|, "
                            "dT <= |dT/dvp| dvp + K(atol + rtol T) (reference slopes)",
-    "deton_eps": "|h(T- - b) - h(T-)| + |c_b(T- - b) - c_b(T-)| + 1e-13, b = K(atol + rtol T-), h = junction v-(T-)",
+    "deton_eps": "max over T- +- b of |h(T) - h(T-)| + |c_b(T) - c_b(T-)| + 1e-13, b = K(atol + rtol T-), h = junction v-(T-) "
+                 "in the momentum form and in the ratio form WallGo evaluates",
     "vJ": "max |v+(TmJ(1 +- K rtol) +- K atol) - vJ_ref| + 1e-11 (closed form evaluated in double precision; measured "
           "max difference on the unchanged tree is in info.vJ_diff)",
     "jouguet_deton": "2 x reference gap + deton_eps",
@@ -242,7 +246,9 @@ def ref_allow(ctx, vw, vp):
 
 
 def deton_eps(ctx, vw, Tm):
-    """Image of the T- tolerance window under the junction relation v-(T-) and c_b(T-)."""
+    """Image of the T- tolerance window under the junction relations v-(T-) (both the momentum form and the
+    ratio form sqrt(v+v- / (v+/v-)) that WallGo evaluates: they agree on exact solutions but have different
+    sensitivities off them) and under c_b(T-)."""
     eos, Tn = ctx.eos, ctx.Tn
     Fn = eos.ws(Tn) * R.g2(vw) * vw
     psn = eos.ps(Tn)
@@ -251,11 +257,21 @@ def deton_eps(ctx, vw, Tm):
         return vw + (psn - eos.pb(T)) / Fn
 
     b = box(Tm, ctx.rtol, ctx.atol)
-    lo = max(Tm - b, 1e-300)
+    out = 1e-13
     try:
-        return (abs(h(lo) - h(Tm)) + abs(math.sqrt(eos.cb2(lo)) - math.sqrt(eos.cb2(Tm))) + 1e-13)
+        for T in (max(Tm - b, 1e-300), Tm + b):
+            e = abs(h(T) - h(Tm)) + abs(math.sqrt(eos.cb2(T)) - math.sqrt(eos.cb2(Tm)))
+            r0, r1 = R.deton_vm(eos, Tn, Tm), R.deton_vm(eos, Tn, T)
+            if r0 == r0 and r1 == r1:
+                e = max(e, abs(r1 - r0) + abs(math.sqrt(eos.cb2(T)) - math.sqrt(eos.cb2(Tm))))
+            out = max(out, e + 1e-13)
+        return out
     except (ValueError, ZeroDivisionError):
         return float("inf")
+
+
+def speed_bucket(vw):
+    return "vw<0.02" if vw < 0.02 else "vw<0.1" if vw < 0.1 else "vw>=0.1"
 
 
 def judge_matching(v, ctx, vw, res, cls0, want=None, sub_prefix=""):
@@ -271,7 +287,7 @@ def judge_matching(v, ctx, vw, res, cls0, want=None, sub_prefix=""):
     if ctx.solver == "general" and branch != "detonation" and ctx.hyd is not None and not ctx.hyd.success:
         fb += "/unconverged-flag"  # the inner 2x2 solve (scipy hybr) did not converge and the result was used anyway
         v.label("hybr-unconverged-flag")
-    cls = f"{cls0}/{branch}{fb}"
+    cls = f"{cls0}/{branch}/{speed_bucket(vw)}{fb}"
     v.checked(sub_prefix + "range")
     if ctx.solver == "template" and "/at-vMin" in cls0 and (vp == 0.0 or Tm == 0.0):
         # exactly at the template model's v_min the exact solution is the limiting one (v+ = 0, T- = 0)
@@ -427,7 +443,7 @@ def check_matching(case, v):
         return v
     vw = Z.velocity(case["vclass"], case["u"], vmin, cb, vJ)
     v.info.update(vw=vw, vMin=vmin, cb=cb, vJ=vJ, alN=ctx.meta["alN"], psiN=ctx.meta["psiN"])
-    v.label("alpha>1/3" if ctx.meta["alN"] > 1.0 / 3.0 else "alpha<1/3", Z.speed_bucket(vw))
+    v.label("alpha>1/3" if ctx.meta["alN"] > 1.0 / 3.0 else "alpha<1/3", "speed:" + speed_bucket(vw))
     at_vmin = vw == max(vmin, 1e-3)
     cls0 = f"{ctx.solver}/{ctx.fam}" + ("/at-vMin" if at_vmin else "")
     br, res = run_matching(v, ctx, hyd, vw, cls0)
@@ -710,13 +726,26 @@ def check_cut(case, v):
         # the range end is closer to the temperatures of ALL slower walls than the solver can resolve
         v.label("cut:ill-conditioned")
         return v.discarded("cut:ill-conditioned")
-    if strong and AVOID["fastest_bracket_end"] and not case.get("force"):
-        # known finding C06-fastestDeflag-bracket-end: see AVOID
-        try:
-            mlow = R.match_deflag(eos, Tn, vmin + 1e-3)
-        except R.RefFailure:
-            mlow = None
-        if mlow is None or not mlow.ok or mlow.vp < 1.05e-3:
+    # fastestDeflag() brackets its root search with findMatching(vMin + 1e-3): is that matching a solution at all?
+    vend = vmin + 1e-3
+    end_bad = None
+    try:
+        rend = hyd0.findMatching(vend)
+    except WallGoError:
+        rend = None
+    if rend is None or any(x is None for x in rend) or not all(_is_num(x) for x in rend):
+        end_bad = "none"
+    else:
+        a_end, why_end = ref_allow(ctx0, vend, float(rend[0]))
+        if a_end is None:
+            end_bad = f"ref-{why_end}"
+        elif (abs(float(rend[2]) - a_end["ref"].Tp) > a_end["Tp"] or abs(float(rend[3]) - a_end["ref"].Tm) > a_end["Tm"]):
+            end_bad = "non-solution"
+    if end_bad:
+        v.label(f"bracket-end:{end_bad}")
+        cls0 += "/bracket-end-bad"
+        if AVOID["fastest_bracket_end"] and not case.get("force"):
+            # known finding C06-fastestDeflag-bracket-end (see AVOID): steer around it
             v.label("avoided:fastest_bracket_end")
             return v
     rg = _ranges(meta, low_hi=cuts["low"][1] / Tn if "low" in cuts else None,
@@ -745,6 +774,18 @@ def check_cut(case, v):
     v.nontrivial = True
     v.label(f"cut-kind:{mm.kind}", f"cut-first:{first}")
     v.info.update(fastest=vf, fastest_err=vf - vfirst, fastest_ratio=abs(vf - vfirst) / allowed)
+    if vf < vfirst - allowed and vf > max(vmin, 1e-3) + 1e-3:
+        # an earlier crossing?  T(vw) need not be monotone (hybrids with c_s > c_b): ask the reference at vf
+        a_, why = ref_allow(ctx0, vf, -1.0)
+        if a_ is None:
+            return v.discarded(f"reference:{why}")
+        Tref, Tall = (a_["ref"].Tm, a_["Tm"]) if first == "low" else (a_["ref"].Tp, a_["Tp"])
+        others = [k for k in cuts if k != first]
+        hit_other = any((a_["ref"].Tm if k == "low" else a_["ref"].Tp) >= cuts[k][1] - (a_["Tm"] if k == "low" else a_["Tp"])
+                        for k in others)
+        if Tref >= Tfirst - Tall - abs(slope) * K * (atol + rtol * vf) or hit_other:
+            v.label("cut:non-monotone")
+            return v.discarded("cut:non-monotone")
     if not abs(vf - vfirst) <= allowed:
         v.fail("cut-fastest", cls0,
                f"{first}-T range ends at T({vfirst:.8g}) = {Tfirst:.8g}: fastestDeflag() = {vf:.10g}, expected "
@@ -796,7 +837,7 @@ def check_cut(case, v):
                 v.label("cut:non-monotone")
                 return v.discarded("cut:non-monotone")
             if (over_low > 0 and res[3] - mr.Tm > a_["Tm"]) or (over_high > 0 and res[2] - mr.Tp > a_["Tp"]):
-                v.fail("cut-slower", cls0,
+                v.fail("cut-slower", f"{cls0}/{speed_bucket(vw)}",
                        f"wall vw={vw:.8g} slower than fastestDeflag()={vf:.8g} has (T+, T-) = ({res[2]:.10g}, "
                        f"{res[3]:.10g}) outside the tabulated ranges (max {Thigh_max:.10g}, {Tlow_max:.10g}); the exact "
                        f"matching has ({mr.Tp:.10g}, {mr.Tm:.10g})", vw=vw, matching=list(res))
